@@ -237,6 +237,10 @@ func GenOp(t *rapid.T, r *Runner, pool *KeyPool, p *GenProfile) Op {
 	case "backup":
 		o := GenOpt(t, "backupreader", p.OptProfile)
 		op := Op{K: "backup", Opt: &o, Reuse: Pct(t, 35, "reusebackupdir"), PrefixDst: Pct(t, 12, "prefixdst")}
+		if !op.PrefixDst && Pct(t, 12, "nesteddst") {
+			op.Nested, op.Reuse = true, false
+			return op
+		}
 		if !op.PrefixDst && Pct(t, 25, "refreshidiom") {
 			// "refresh a forked copy": backup; the copy is opened and written into (the harness does that with every
 			// backup it keeps); the source appends records of exactly the same size; the copy is written into once more
